@@ -14,7 +14,10 @@ CONTRACTS = {
     'C06': 'contracts.c06',
     'C07': 'contracts.c07',
     'C08': 'contracts.c08',
+    'C09': 'contracts.c09',
+    'C10': 'contracts.c10',
     'C11': 'contracts.c11',
+    'C12': 'contracts.c12',
     'C13': 'contracts.c13',
     'C14': 'contracts.c14',
     'C16': 'contracts.c16',
